@@ -83,7 +83,7 @@ def desc(cfg):
     return "dag_full(p=%d, w_min=%s, w_max=%s, random_state=%r)" % (cfg["p"], cfg["range"][0], cfg["range"][1], cfg["seed_arg"])
 
 
-def judge(cfg, answers, order):
+def judge(cfg, answers, order, structural=True):
     """One execution (two calls: with and without return_ordering). -> (fails, info, points)"""
     p = cfg["p"]
     lo, hi = cfg["range"]
@@ -115,7 +115,7 @@ def judge(cfg, answers, order):
     if any(not (lo <= v <= hi) for _, _, v in nz):
         fails.append(("weight-out-of-range", "%s: weights %s outside [%s, %s]" % (d, [v for _, _, v in nz], lo, hi)))
     wvals = [c["value"] for c in tp.trace if c["kind"] == "uniform" and (c["lo"], c["hi"]) == (float(lo), float(hi))]
-    if (float(lo), float(hi)) != (0.0, 1.0) and any(all(abs(v - w) > 1e-12 for w in wvals) for _, _, v in nz):
+    if structural and wvals and (float(lo), float(hi)) != (0.0, 1.0) and any(all(abs(v - w) > 1e-12 for w in wvals) for _, _, v in nz):
         fails.append(("weight-not-a-draw", "%s: some weight in %s is not w_min+(w_max-w_min)*u of a uniform cell drawn for that range (%s)" % (d, [v for _, _, v in nz], wvals[:6])))
     try:
         o = [int(x) for x in ordering]
@@ -140,9 +140,11 @@ def explore_cfg(cfg, acc, tier):
     prob = cfg["k"] / (p - 1) if cfg["fn"] == "avg" else None
     crashed = lambda: sum(1 for f in fails if f[2] == "raises") >= 3        # the generator raises: no point in walking the whole answer tree
 
+    structural = [True]
+
     def runner(order, sink):
         def run(prefix):
-            f, info, points = judge(cfg, prefix, order)
+            f, info, points = judge(cfg, prefix, order, structural[0])
             acc.states += 1
             acc.traces += 2
             acc.transitions += len(points)
@@ -161,6 +163,24 @@ def explore_cfg(cfg, acc, tier):
     is_mask = lambda pt: pt["kind"] == "uniform" and pt["menu"] == 2 and prob is not None and 0 < prob < 1
     is_perm = lambda pt: pt["kind"] == "permutation"
     is_weight = lambda pt: pt["kind"] == "uniform" and pt["menu"] == 3
+
+    # ---- is the way the implementation consumes randomness the one the structural oracles below assume?
+    # (uniform cells thresholded at k/(p-1) for the mask, uniform cells of the weight range, permutation cells).  Any other
+    # legitimate structure (random keys + argsort, binomial edge count + subset, insertion by integers, ...) is explored to
+    # deviation 1 with the per-execution oracle only; its distributional sentences are left to the seed-range stage.
+    _, info0, pts0 = judge(cfg, (), "L", False)
+    kinds = set(pt["kind"] for pt in pts0)
+    undec0 = bool(info0 and info0.get("undecided"))
+    nmask = sum(1 for pt in pts0 if pt["kind"] == "uniform" and pt["menu"] == 2)
+    recognised = (not undec0) and kinds <= {"uniform", "permutation"} and (p < 2 or "permutation" in kinds) and (
+        prob is None or not (0 < prob < 1) or nmask >= npairs)
+    if not recognised:
+        structural[0] = False
+        acc.extra["configs_structure_not_recognised"] += 1
+        acc.undecided += 1
+        tape.explore(runner("L", lambda prefix, info: None), bound=1, max_exec=3000, stop=crashed)
+        return fails
+    acc.extra["configs_structure_recognised"] += 1
 
     # ---- phase A0: which mask cells matter?  single flips from the all-absent (H) and all-present (L) baselines
     relevant = None
@@ -266,11 +286,102 @@ def explore_cfg(cfg, acc, tier):
     return fails
 
 
+def real_call(cfg, seed, with_ordering):
+    try:
+        if cfg["fn"] == "avg":
+            r = gen.dag_avg_deg(cfg["p"], cfg["k"], cfg["range"][0], cfg["range"][1], return_ordering=with_ordering, random_state=seed)
+        else:
+            r = gen.dag_full(cfg["p"], cfg["range"][0], cfg["range"][1], return_ordering=with_ordering, random_state=seed)
+        return ("ok", r)
+    except Exception as e:
+        return ("exc", type(e).__name__, repr(e)[:300])
+
+
+def judge_real(cfg, seed):
+    """One seed of the real numpy generator: the structure-independent part of the oracle."""
+    p = cfg["p"]
+    lo, hi = cfg["range"]
+    d = desc(cfg).replace("random_state=%r" % cfg["seed_arg"], "random_state=%d" % seed) + " [real numpy]"
+    r1, r2 = real_call(cfg, seed, True), real_call(cfg, seed, False)
+    if r1[0] != "ok" or r2[0] != "ok":
+        return [("raises", "%s raised %s" % (d, (r1 if r1[0] != "ok" else r2)[2]))], None
+    try:
+        W, ordering = r1[1]
+        W, W2 = np.asarray(W), np.asarray(r2[1])
+        o = [int(x) for x in ordering]
+    except Exception:
+        return [("malformed", "%s returned %r" % (d, r1[1]))], None
+    fails = []
+    if W.shape != (p, p) or W2.shape != (p, p):
+        return [("shape", "%s returned shape %s" % (d, W.shape))], None
+    Wl = W.tolist()
+    if not np.array_equal(W, W2):
+        fails.append(("ordering-flag-changes-graph", "%s: W differs with and without return_ordering for the same seed" % d))
+    if any(Wl[i][i] != 0 for i in range(p)):
+        fails.append(("diagonal", "%s: non-zero diagonal" % d))
+    if G.pattern_has_cycle(Wl):
+        fails.append(("cyclic", "%s: returned graph %s has a directed cycle" % (d, Wl)))
+    if any(v != 0 and not (lo <= v <= hi) for row in Wl for v in row):
+        fails.append(("weight-out-of-range", "%s: weights outside [%s, %s] in %s" % (d, lo, hi, Wl)))
+    if sorted(o) != list(range(p)):
+        fails.append(("ordering-not-permutation", "%s: ordering %r is not a permutation of the nodes" % (d, ordering)))
+    elif not G.is_topological_order(Wl, o):
+        fails.append(("ordering-not-topological", "%s: ordering %s is not a topological order of %s" % (d, o, Wl)))
+    edges = frozenset((min(i, j), max(i, j)) for i in range(p) for j in range(p) if Wl[i][j] != 0)
+    if cfg["fn"] == "full" and not (lo <= 0 <= hi) and len(edges) != p * (p - 1) // 2:
+        fails.append(("not-complete", "%s: %s is not complete although 0 is outside the weight range" % (d, Wl)))
+    return fails, (edges, tuple(o) if sorted(o) == list(range(p)) else None)
+
+
+def seed_range(cfg, acc, nseeds):
+    """Every seed in [0, nseeds) with the real generator: exhaustive over a seed range, independent of how the implementation
+    consumes its randomness.  Coverage statements whose failure probability under the specified law is < 1e-15."""
+    p = cfg["p"]
+    fails = []
+    orders, positions, present, absent = set(), set(), set(), set()
+    pairs = [(i, j) for i in range(p) for j in range(i + 1, p)]
+    for s in range(nseeds):
+        f, info = judge_real(cfg, s)
+        acc.states += 1
+        acc.traces += 2
+        acc.transitions += 2
+        acc.extra["seed_range_executions"] += 1
+        for sig, msg in f:
+            fails.append(("real", {"cfg": cfg, "seed": s}, sig, msg))
+        if info is None:
+            continue
+        edges, o = info
+        if o is not None:
+            orders.add(o)
+            positions.update((node, pos) for pos, node in enumerate(o))
+        for pr in pairs:
+            (present if pr in edges else absent).add(pr)
+    if [f for f in fails if f[2] in ("raises", "malformed", "shape")]:
+        return fails[:6]
+    d = desc(cfg) + " over random_state 0..%d [real numpy]" % (nseeds - 1)
+    if nseeds >= 200 and 1 <= p <= 5 and len(positions) != p * p:
+        fails.append(("real-agg", {"cfg": cfg, "nseeds": nseeds}, "ordering-not-random", "%s: only %d of the %d (node, position) pairs occur among the orderings" % (d, len(positions), p * p)))
+    if nseeds >= 200 and 1 <= p <= 3 and len(orders) != math.factorial(p):
+        fails.append(("real-agg", {"cfg": cfg, "nseeds": nseeds}, "ordering-not-random", "%s: only %d of the %d! orderings occur" % (d, len(orders), p)))
+    if cfg["fn"] == "avg":
+        prob = cfg["k"] / (p - 1)
+        zero_possible = cfg["range"][0] <= 0 <= cfg["range"][1] and cfg["range"][0] != cfg["range"][1]
+        if prob <= 0 and present:
+            fails.append(("real-agg", {"cfg": cfg, "nseeds": nseeds}, "edge-probability", "%s: edges occur although k = 0" % d))
+        if prob >= 1 and absent and not zero_possible:
+            fails.append(("real-agg", {"cfg": cfg, "nseeds": nseeds}, "edge-probability", "%s: pairs %s are sometimes non-adjacent although k = p-1" % (d, sorted(absent)[:3])))
+        if nseeds >= 200 and 1.0 / 3 <= prob <= 2.0 / 3 and (len(present) != len(pairs) or len(absent) != len(pairs)):
+            fails.append(("real-agg", {"cfg": cfg, "nseeds": nseeds}, "edge-probability", "%s: with edge probability %.3f some pair is %s in every draw" % (
+                d, prob, "absent" if len(present) != len(pairs) else "present")))
+    return fails[:6]
+
+
 def run_unit(unit):
     acc = Acc()
     cfg = unit
     b0 = tape.BUDGET_EVENTS[0]
     fails = explore_cfg(cfg, acc, _TIER[0])
+    fails = list(fails) + seed_range(cfg, acc, 200 if _TIER[0] == "quick" else 1000)
     acc.undecided += tape.BUDGET_EVENTS[0] - b0          # executions abandoned at the draw budget (unbounded consumption of randomness)
     seen = set()
     for kind, case, sig, msg in fails:
@@ -284,6 +395,10 @@ def run_unit(unit):
 
 
 def replay(kind, case):
+    if kind == "real":
+        return judge_real(case["cfg"], case["seed"])[0]
+    if kind == "real-agg":
+        return [(sig, msg) for k, c, sig, msg in seed_range(case["cfg"], Acc(), case["nseeds"]) if k == "real-agg"]
     if kind == "exec":
         f, _, _ = judge(case["cfg"], case["answers"], case["order"])
         return f
@@ -294,7 +409,10 @@ def replay(kind, case):
 def describe(tier, seed):
     return {
         "technique": "exhaustive enumeration of RNG answer sequences (harness-owned numpy.random; stateless DFS) on the real generators",
-        "rule": "dag_avg_deg for p in 2..4 (5 thorough) x k in {0, 0.25, 1, 1.5, p-1} x 4 weight ranges, dag_full for p in 0..4 (5) x 4 ranges; each execution calls the "
+        "rule": "(structural oracles apply when the implementation thresholds uniform cells at k/(p-1) and uses permutation cells - counted as configs_structure_recognised; "
+                "any other way of consuming randomness is explored to deviation 1 with the per-execution oracle only) + every seed in [0,200) (quick) / [0,1000) (thorough) of the "
+                "real generator per configuration: per-draw validity, W identical with/without ordering, every (node, position) pair and (p<=3) all p! orderings occur, "
+                "k=0 gives no edge, k=p-1 every pair, 1/3<=k/(p-1)<=2/3 every pair both present and absent. dag_avg_deg for p in 2..4 (5 thorough) x k in {0, 0.25, 1, 1.5, p-1} x 4 weight ranges, dag_full for p in 0..4 (5) x 4 ranges; each execution calls the "
                 "generator with and without return_ordering on the same answers. Phase A0: every single flip of a Bernoulli cell across k/(p-1) from the all-absent and "
                 "all-present baselines (identifies the own cell of every pair); phase A1: complete product of the p(p-1)/2 relevant cells x all p! permutation answers; "
                 "phase B: every single deviation of a weight cell. Irrelevant Bernoulli cells and weight cells are covered to deviation 1 only. non-trivial: "
